@@ -979,6 +979,10 @@ func (tx *Transaction) WriteRequestBody(b []byte) (*types.Interruption, int, err
 
 		if tx.WAF.RequestBodyLimitAction == types.BodyLimitActionProcessPartial {
 			writingBytes = tx.RequestBodyLimit - tx.requestBodyBuffer.length
+			if writingBytes < 0 {
+				// the limit can be below what is already buffered (ctl:requestBodyLimit)
+				writingBytes = 0
+			}
 			runProcessRequestBody = true
 		}
 	}
@@ -1249,6 +1253,10 @@ func (tx *Transaction) WriteResponseBody(b []byte) (*types.Interruption, int, er
 
 		if tx.WAF.ResponseBodyLimitAction == types.BodyLimitActionProcessPartial {
 			writingBytes = tx.ResponseBodyLimit - tx.responseBodyBuffer.length
+			if writingBytes < 0 {
+				// the limit can be below what is already buffered (ctl:responseBodyLimit)
+				writingBytes = 0
+			}
 			runProcessResponseBody = true
 		}
 	}
